@@ -47,7 +47,7 @@ let run_varr args ops =
           | ONone -> Buffer.add_string b " -"
           | OVal c -> Buffer.add_string b (" v" ^ show_cell c)
           | ONat n -> Buffer.add_string b ((if o = VCapacity then " #c" else " n") ^ string_of_int (int_of_nat n))
-          | OBool t -> Buffer.add_string b (if t then " b1" else " b0"));
+          | OBool t -> Buffer.add_string b (if t then " #b1" else " #b0"));
          (match ev with
           | Some (o, n) -> Buffer.add_string b (Printf.sprintf " #r%d,%d" (int_of_nat o) (int_of_nat n))
           | None -> ())))
